@@ -609,6 +609,16 @@ def gen(rng, tier):
     # 7. converting constructors Map<K,T>(const Map<K2,T2>&) / Dic(const Map<..>&) / Dic(const Dic<..>&): key conversions that
     #    reorder (int -> decimal text) or merge (double -> int) keys, and same-key-type conversions
     cases += cv_cases(rng, 150 if q else 3000)
+    # 8. s << s on an OVER-FULL table (filled while a second handle suppressed growth, handle then dropped): the table grows
+    #    several times INSIDE the one enumeration of s (HashMap.selfMerge; the case self_merge_interleaved_full leaves to K)
+    for kind in SETS:
+        for rep in range(6 if q else 60):
+            nb, n = rng.choice([(1, 20), (1, 70), (2, 40), (8, 80), (4, 600), (1, 9), (2, 5)])
+            ks = [kstr(kind, (rng.randrange(1, 64) * rng.choice([1, 8, 64, 512]) + j) if kind in INTKEY else b"k%d" % (j * rng.choice([1, 33]))) for j in range(n)]
+            c = ["%s new 0 %d" % (kind, nb), "%s share 0 3" % kind] + ["%s ins 0 %s" % (kind, k) for k in ks]
+            c += ["%s new 3 4" % kind, "%s raw 0" % kind, "%s addself 0" % kind, "%s raw 0" % kind, "%s len 0" % kind,
+                  "%s has 0 %s" % (kind, ks[0]), "%s addself 0" % kind, "%s raw 0" % kind, "%s walk 0" % kind]
+            cases.append(c)
     cases.append(growth(rng, "hi", 1900, None, removes=0.02))
     cases.append(growth(rng, "ss", 1850, 256, removes=0.0))
     if not q:
